@@ -30,7 +30,7 @@ def make_accel_case(spec, rnd):
 
 VARIANTS = ["generic", "occ-conv", "merger-static", "eager2", "part", "reread-m", "lf-shared",
             "generic", "merger-dynamic", "alias-arch", "part", "lf-affine", "lf-take", "lf-take",
-            "generic", "generic"]
+            "generic", "generic", "flat-out"]
 
 
 def gen_item(pid, seed, shard, i, **kw):
